@@ -18,6 +18,11 @@ def load_claims():
         CLAIMED.update(json.load(open(path)))
 
 
+def ties():
+    import glob
+    return sorted("OFCore.Props." + os.path.basename(f)[:-5] for f in glob.glob(os.path.join(VERIF, "lean/OFCore/OFCore/Props/C*Tie.lean")))
+
+
 def drivers():
     import re
     lf = open(os.path.join(VERIF, "lean", "OFCore", "lakefile.toml")).read()
@@ -45,7 +50,7 @@ def main():
     na = [{"property_id": pid, "reason": NOT_YET} for pid in ALL if pid not in CLAIMED]
     m = {
         "version": 1,
-        "setup_cmd": "cd /verif/lean/OFCore && lake build " + " ".join(["OFCore"] + [f"OFCore.Props.{c['property_id']}" for c in checks] + drivers()),
+        "setup_cmd": "cd /verif/lean/OFCore && lake build " + " ".join(["OFCore"] + [f"OFCore.Props.{c['property_id']}" for c in checks] + ties() + drivers()),
         "hooks": {
             "guard": "OPENFISCA_CORE_VERIF",
             "enable": "no hooks are needed: checks import the working tree of /repo in-process (OFV_REPO selects another tree)",
